@@ -126,44 +126,67 @@ def _aggregators(ctx) -> None:
 
 
 def _na(ctx) -> None:
+    """isna / dropna / fillna on the symx event log (closures and later helpers in line)."""
+    from ..sites2 import all_sites2, comp_parts, interp_of, leaves
+    from ..sites2 import fill_of as fill_of2
+    from ..sites2 import same_elements_of as same2
+    from ..symx import NONE as SNONE
+    from ..symx import kw, show
     prog = ctx.prog
     f = prog.func("vector.Vector.isna")
-    r = [s for s in walk_stmts(f.body) if isinstance(s, ast.Return)]
-    c = comp_of(r[0].value.args[0]) if r and isinstance(r[0].value, ast.Call) and r[0].value.args else None
-    ok = c is not None and not c.generators[0].ifs and short(c.generators[0].iter) == "self._underlying" \
-        and short(c.elt) == f"{c.generators[0].target.id} is None"
+    it = interp_of(prog, f)
+    SELF = ("param", f.params[0])
+    stor = ("attr", SELF, "_underlying")
+    rets = [e for e in it.events if e.kind == "return" and e.depth == 0]
+    ok = False
+    if len(rets) == 1 and rets[0].term[0] == "call" and rets[0].term[2]:
+        cp = comp_parts(it, rets[0].term[2][0])
+        if cp is not None and len(cp[0]) == 1 and not cp[1]:
+            src = it.loops[cp[0][0]].iter
+            ok = src in (stor, SELF) and cp[2] == ("cmp", "Is", ("elem", src, cp[0][0]), SNONE)
     ctx.ob("d.na-triple", f, "isna", ok, "isna: x is None per element", f.node, message="isna does not mark exactly the None elements")
     f = prog.func("vector.Vector.dropna")
-    rets = [s for s in walk_stmts(f.body) if isinstance(s, ast.Return)]
+    it = interp_of(prog, f)
+    SELF = ("param", f.params[0])
+    rets = [e for e in it.events if e.kind == "return" and e.depth == 0]
     problems = []
     for r in rets:
-        v = r.value
-        if not (isinstance(v, ast.Call) and short(v.func) == "Vector" and v.args):
-            problems.append(f"returns `{short(v, 60)}`")
+        v = r.term
+        if not (v[0] == "call" and v[1] == ("name", "Vector") and v[2]):
+            problems.append(f"returns `{show(v, it)[:60]}`")
             continue
-        se = same_elements_of(v.args[0])
-        if not (se and se[0] == "self" and se[1] == "filter-not-none"):
-            problems.append(f"`{short(v.args[0], 70)}` does not keep exactly the elements that are not None")
-        dt = kwarg(v, "dtype")
-        if dt is None or short(dt) != "self._dtype.with_nullable(False)":
-            problems.append(f"the result dtype is `{short(dt) if dt is not None else 'inferred'}`, expected self's dtype made non-nullable")
+        for d in leaves(v[2][0]):
+            se = same2(it, d)
+            if not (se and se[0] == SELF and se[1] == "filter-not-none"):
+                problems.append(f"`{show(d, it)[:70]}` does not keep exactly the elements that are not None")
+        dt = kw(v, "dtype")
+        want = ("call", ("attr", ("attr", SELF, "_dtype"), "with_nullable"), (("const", "bool", False),), ())
+        if dt != want:
+            problems.append(f"the result dtype is `{show(dt, it)[:50] if dt is not None else 'inferred'}`, expected self's dtype made non-nullable")
     ctx.ob("d.na-triple", f, "dropna", not problems and bool(rets), "dropna: filter `is not None`, non-nullable", f.node,
            message="dropna: " + "; ".join(problems))
     f = prog.func("vector.Vector.fillna")
-    fills = [s for s in walk_stmts(f.body) if isinstance(s, ast.Assign) and isinstance(s.value, ast.Call) and short(s.value.func) == "tuple"]
-    problems = []
+    SELF = ("param", f.params[0])
+    val = ("param", f.params[1])
     k = 0
-    for s in fills:
-        k += 1
-        fo = fill_of(s.value)
-        from ..astutil import Defs as _Defs
-        dd = _Defs(f)
-        src_ok = fo is not None and (fo[0] == "self" or all(v is not None and short(v) == "self.copy()" for v in dd.values(fo[0])) and bool(dd.values(fo[0])))
-        ok = fo is not None and fo[1] == f.params[1] and src_ok
-        ctx.ob("d.na-triple", f, f"fillna:{k}", ok, "fillna: value if x is None else x over all elements", s,
-               message=f"fillna builds `{short(s.value, 70)}`; expected `{f.params[1]} if x is None else x` over every element")
+    seen = set()
+    for s in all_sites2(prog):
+        if s.top is not f or s.kind != "Vector":
+            continue
+        for d in leaves(s.data):
+            key = (id(s.it), d)
+            if key in seen:
+                continue
+            seen.add(key)
+            k += 1
+            fo = fill_of2(s.it, d)
+            src_ok = fo is not None and fo[0] in (SELF, ("call", ("attr", SELF, "copy"), (), ()))
+            ok = fo is not None and fo[1] == val and src_ok
+            ctx.ob("d.na-triple", f, f"fillna:{k}", ok, "fillna: value if x is None else x over all elements", s.node,
+                   message=f"fillna builds `{s.sh(d, 70)}`; expected `{f.params[1]} if x is None else x` over every element of self (or of a "
+                           f"fresh copy of self)")
     if k < 2:
-        raise AnalysisError("fillna: expected two fill sites (promoting and standard path)")
+        raise AnalysisError("fillna: expected two fill results (promoting and standard path)")
 
 
 _V, _T = "vector", "table"
